@@ -301,8 +301,9 @@ class Task:
     def finish(self):
         if not self.wrote_header:
             self.write(b"")
-        if self.chunked_response:
+        if self.chunked_response and self.request.command != "HEAD":
             # not self.write, it will chunk it!
+            # (a HEAD response has no body, so it has no last-chunk either)
             self.channel.write_soon(b"0\r\n\r\n")
 
     def write(self, data):
